@@ -54,11 +54,11 @@ class Check(object):
         self.explanations = []
 
     # ---- engine access -----------------------------------------------------------------------------
-    def summary(self, module, cls, name, host=None, no_inline=(), depth=None):
-        key = (module, cls, name, host, tuple(no_inline), depth)
+    def summary(self, module, cls, name, host=None, no_inline=(), depth=None, ignore_refresh=False):
+        key = (module, cls, name, host, tuple(no_inline), depth, ignore_refresh)
         if key not in self._summaries:
             fn = self.prog.func(module, cls, name)
-            ev = Evaluator(self.prog, inline_depth=self.inline_depth if depth is None else depth, no_inline=no_inline)
+            ev = Evaluator(self.prog, inline_depth=self.inline_depth if depth is None else depth, no_inline=no_inline, ignore_refresh=ignore_refresh)
             s = ev.summarize(fn, host)
             s.evaluator = ev
             if s.unsupported:
@@ -86,7 +86,7 @@ class Check(object):
         st.locals = dict(env)
         return ev.ev(tree.body, st, Frame(fi, None, ("spec",)))
 
-    def ref(self, src, host, module="bt/core.py", bindings=None, depth=None, no_inline=()):
+    def ref(self, src, host, module="bt/core.py", bindings=None, depth=None, no_inline=(), ignore_refresh=False):
         """Evaluate a reference model (Python source of one function) with the same engine."""
         import ast
 
@@ -94,7 +94,8 @@ class Check(object):
 
         node = ast.parse(src).body[0]
         fi = FuncInfo(module, host, node)
-        ev = Evaluator(self.prog, inline_depth=self.inline_depth if depth is None else depth, no_inline=no_inline)
+        fi.prog = self.prog
+        ev = Evaluator(self.prog, inline_depth=self.inline_depth if depth is None else depth, no_inline=no_inline, ignore_refresh=ignore_refresh)
         s = ev.summarize(fi, host, bindings=bindings)
         s.evaluator = ev
         return s
